@@ -61,6 +61,8 @@ for pid in sorted(claimed):
         meta = json.load(open(s))
         d = det.get(n, {})
         st = ("detected by %s (%s)" % (",".join(d.get("by", [])), d.get("how", "quick tier"))) if d.get("detected") else ("NOT detected" if n in det else "not run yet")
+        if str(meta.get("status", "")).startswith("neutralised"):
+            st = "no longer a defect — " + meta["status"][:300]
         out.append("* %s — %s — %s" % (n, st, meta.get("summary") or meta.get("breaks", "")[:260]))
 text = "\n".join(out)
 dp = os.path.join(V, "DESIGN.md")
